@@ -180,6 +180,9 @@ func (e *Engine) forceInline(callee *ssa.Function) bool {
 	if e.con == nil || callee.Blocks == nil || !inFalco(callee) {
 		return false
 	}
+	if con := e.P.contractFor(callee); con != nil && con.Extern {
+		return false // abstracted by an assumed contract: never executed
+	}
 	for _, c := range e.con.get("inline-calls") {
 		if len(c.Args) == 0 {
 			return true
